@@ -58,8 +58,12 @@ T = {
  "C19": ("graph.rs BaseGraph::finish (parallel builder only): skips a node's first/last k-mer in the index when that side has no extensions",
          "finish() (not finish_serial) and a lookup aimed at a dead-end side",
          {"C19": "failing input (parallel/serial/model answers differ)"}),
- "C18": ("(filled in when the sub-agent reports)", "", {}),
- "C20": ("(filled in when the sub-agent reports)", "", {}),
+ "C18": ("graph.rs NodeKmerIter::nth: end check `n >= self.num_kmers - self.kmer_id` became `n >= self.len()` (len() is the up-front total)",
+         "an iterator that has already advanced, then a skip reaching past the last k-mer but shorter than the node's total count",
+         {"C18": "failing input (k-mer of a neighbouring node / stream does not end)"}),
+ "C20": ("graph.rs node_to_gfa: right-edge filter `target > id || (target == id && dir == Right)` simplified to `target >= id`",
+         "a node whose right end links to its own left end (circular self-link, e.g. a homopolymer or tandem repeat)",
+         {"C20": "failing input (FAIL:gfa-duplicates-a-link)"}),
 }
 for pid, (what, needs, caught) in T.items():
     d = os.path.join(V, "seeded", pid)
